@@ -22,6 +22,16 @@ pub const QUALS: [&str; 8] = ["t1", "t2", "t3", "a1", "a2", "a3", "c1", "c2"];
 pub const QCOLS: [&str; 5] = ["id", "p", "q", "r", "s"];
 pub const ITEM_ALIASES: [&str; 4] = ["x1", "x2", "x3", "x4"];
 
+/// name of a select-item alias: x1..x4, or (from 100) the name of a fixture column — used where a derived CTE column list must
+/// keep the names the outer statement refers to
+pub fn item_alias(a: u8) -> &'static str {
+    if a >= 100 {
+        QCOLS[(a as usize - 100) % 5]
+    } else {
+        ITEM_ALIASES[a as usize % 4]
+    }
+}
+
 pub fn al(s: &str) -> Alias {
     Alias::new(s)
 }
@@ -156,7 +166,7 @@ impl CteSpec {
             .iter()
             .map(|it| {
                 if let Some(a) = it.alias {
-                    return Some(ITEM_ALIASES[a as usize % 4].to_string());
+                    return Some(item_alias(a).to_string());
                 }
                 match &it.e {
                     E::Col(i) => Some(crate::expr_spec::COLS[*i as usize % 4].to_string()),
@@ -512,19 +522,19 @@ pub fn build_select(s: &SelectSpec, d: Dialect) -> SelectStatement {
                 }
             }
             (None, Some(a)) => {
-                q.expr_as(e, al(ITEM_ALIASES[a as usize % 4]));
+                q.expr_as(e, al(item_alias(a)));
             }
             (Some(WinRef::Inline(w)), None) => {
                 q.expr_window(e, build_window(w, d));
             }
             (Some(WinRef::Inline(w)), Some(a)) => {
-                q.expr_window_as(e, build_window(w, d), al(ITEM_ALIASES[a as usize % 4]));
+                q.expr_window_as(e, build_window(w, d), al(item_alias(a)));
             }
             (Some(WinRef::Named), None) => {
                 q.expr_window_name(e, al("w"));
             }
             (Some(WinRef::Named), Some(a)) => {
-                q.expr_window_name_as(e, al("w"), al(ITEM_ALIASES[a as usize % 4]));
+                q.expr_window_name_as(e, al("w"), al(item_alias(a)));
             }
         }
     }
